@@ -97,12 +97,12 @@ def write_if_changed(path, text):
 
 def static_coq_files():
 	files = []
-	for sub in ('Base', 'Cats', 'Sym', 'Lint', 'Gen'):
+	for sub in ('Base', 'Cats', 'Sym', 'Lint', 'Gen', 'Props'):
 		files += sorted(str(p.relative_to(COQ)) for p in (COQ / sub).glob('*.v'))
 	return files
 
 
-def coq_make(timeout=1500, keep_going=True):
+def coq_make(timeout=1500, keep_going=True, target=None):
 	"""Builds every model/proof library file (not Props, which the checks compile themselves to capture the output)."""
 	with coq_lock():
 		files = static_coq_files()
@@ -111,7 +111,7 @@ def coq_make(timeout=1500, keep_going=True):
 			status, out = run(['coq_makefile', '-f', '_CoqProject.build', '-o', 'Makefile'], 120, cwd=COQ)
 			if status != 0:
 				return False, out
-		status, out = run(['make', f'-j{NCPU}'] + (['-k'] if keep_going else []), timeout, cwd=COQ)
+		status, out = run(['make', f'-j{NCPU}'] + (['-k'] if keep_going else []) + ([target] if target else []), timeout, cwd=COQ)
 		return status == 0, out
 
 
@@ -151,7 +151,7 @@ def coq_eval(imports, exprs, tag, shard=250, timeout=900):
 		while pending and len(running) < NCPU:
 			name = pending.pop(0)
 			proc = subprocess.Popen(
-				['timeout', str(timeout), 'coqc', '-Q', str(COQ), 'Symv', '-Q', str(work), f'SymvCases{os.getpid()}', str(work / f'{name}.v')],
+				['timeout', str(timeout), 'coqc', '-Q', str(COQ), 'Symv', str(work / f'{name}.v')],
 				stdout=subprocess.PIPE, stderr=subprocess.STDOUT, text=True)
 			running.append((name, proc))
 		name, proc = running.pop(0)
@@ -344,8 +344,8 @@ class Check:
 
 	def prove(self, props_file, timeout=900):
 		"""Builds the libraries, then compiles Props/<file> capturing Print Assumptions; one obligation per theorem."""
-		ok, out = coq_make()
-		self.checker_cmds.append('coq_makefile -f _CoqProject.build -o Makefile && make (coq/)')
+		ok, out = coq_make(target=f'Props/{props_file[:-2]}.vo')
+		self.checker_cmds.append(f'coq_makefile -f _CoqProject.build -o Makefile && make Props/{props_file[:-2]}.vo (coq/; builds the theorem file and everything it depends on)')
 		make_out = out if not ok else ''
 		ok, out, secs = coqc(f'Props/{props_file}', timeout)
 		if not ok and make_out and 'Cannot find a physical path' not in make_out:
